@@ -11,13 +11,54 @@ import (
 	"math/rand"
 	"os"
 	"strings"
+	"sync"
+	"sync/atomic"
+	"time"
 )
 
 var out *bufio.Writer
 
+var (
+	emitMu    sync.Mutex
+	lastAlive atomic.Int64 // unix nanoseconds of the last sign of progress
+	stuckNote atomic.Value // what the family was doing then
+)
+
 func emit(format string, args ...any) {
+	emitMu.Lock()
 	fmt.Fprintf(out, format, args...)
 	out.WriteByte('\n')
+	emitMu.Unlock()
+	lastAlive.Store(time.Now().UnixNano())
+}
+
+// note records what is about to be asked of the code under test; it counts as progress.
+func note(format string, args ...any) {
+	stuckNote.Store(fmt.Sprintf(format, args...))
+	lastAlive.Store(time.Now().UnixNano())
+}
+
+// watchdog: the families that call straight into the database or the handlers make progress
+// every few milliseconds.  When nothing has happened for `limit`, a call has not returned and
+// never will (a lock that is never released): that is an observation, written as a last line
+//
+//	stuck family= note=<hex: the calls that were under way>
+//
+// and the run ends there.
+func watchdog(fam string, limit time.Duration) {
+	lastAlive.Store(time.Now().UnixNano())
+	go func() {
+		for {
+			time.Sleep(limit / 8)
+			if time.Since(time.Unix(0, lastAlive.Load())) > limit {
+				n, _ := stuckNote.Load().(string)
+				emitMu.Lock()
+				fmt.Fprintf(out, "stuck\tfamily=%s\tnote=%s\n", fam, hx(n))
+				out.Flush()
+				os.Exit(0)
+			}
+		}
+	}()
 }
 
 func hx(s string) string { return hex.EncodeToString([]byte(s)) }
@@ -69,16 +110,19 @@ func main() {
 	case "auditfmt":
 		err = traceAuditFmt(o)
 	case "db":
+		watchdog(fam, 90*time.Second)
 		err = traceDB(o)
 	case "cli":
 		err = traceCLI(o)
 	case "bytes":
 		err = traceBytes(o)
 	case "conc":
+		watchdog(fam, 120*time.Second)
 		err = traceConc(o)
 	case "fields":
 		err = traceFields(o)
 	case "http":
+		watchdog(fam, 90*time.Second)
 		err = traceHTTP(o)
 	case "fs":
 		err = traceFS(o)
